@@ -340,7 +340,7 @@ package packet
 //@ 		return false
 //@ 	}
 //@ 	if b[n0]&16 != 0 {
-//@ 		return w >= 4 && w-4 == int(b[n0+2])*256+int(b[n0+3])
+//@ 		return w >= 4 && w-4 == int(b[n0+2])<<8|int(b[n0+3])
 //@ 	}
 //@ 	return w-3 == int(b[n0+2])
 //@ }
@@ -361,14 +361,20 @@ package packet
 
 // An unknown attribute is passed on with its value; a value of more than 255
 // bytes is sent with the extended-length flag whatever the stored flag says.
+// Clauses 0, 3, 4 and 5 together say that the bytes appended form one attribute
+// (spec_attrAt) and pin its header exactly: flags bit, type code, and a length
+// field of the announced width that equals the value's length.
 //@ contract (*PathAttribute).serializeUnknownAttribute
 //@   props C17
 //@   requires pa != nil && buf != nil && spec_isBytes(pa.Value) && spec_bytesLen(pa.Value) <= 65000
 //@   old n0 int = buf.Len()
 //@   old n int = spec_bytesLen(pa.Value)
-//@   ensures spec_attrAt(buf, n0, pa.TypeCode)
+//@   ensures buf.Len() == n0 + n + ite(pa.ExtendedLength || n > 255, 4, 3) && buf.Bytes()[n0+1] == pa.TypeCode
 //@   ensures !pa.ExtendedLength && n <= 255 ==> int(result) == buf.Len() - n0
 //@   ensures pa.ExtendedLength || n > 255 ==> int(result) == buf.Len() - n0
+//@   ensures pa.ExtendedLength || n > 255 ==> int(buf.Bytes()[n0+2]) == n>>8 && int(buf.Bytes()[n0+3]) == n&255
+//@   ensures !(pa.ExtendedLength || n > 255) ==> int(buf.Bytes()[n0+2]) == n
+//@   ensures (buf.Bytes()[n0]&16 != 0) == (pa.ExtendedLength || n > 255)
 //@   modifies buf
 
 // The pieces of an UPDATE are serialized into buffers of their own.
